@@ -43,7 +43,10 @@ class L(object):
                         (cls.AnnotationSet, "AnnotationSet"), (cls.TreeList, "TreeList"),
                         (cls.CharacterMatrix, "CharacterMatrix"), (cls.CharacterDataSequence, "CharacterDataSequence"),
                         (cls.CharacterType, "CharacterType"), (cls.CharacterSubset, "CharacterSubset")]
-        cls.EXEMPT = (cls.StateAlphabet, cls.StateIdentity)
+        # the module-level alphabets (DNA_STATE_ALPHABET, ...) are library-wide constants whose copy is documented
+        # to be the object itself; every OTHER alphabet (new_standard_state_alphabet, StateAlphabet(...)) is a
+        # mutable part of the matrix that holds it
+        cls.BUILTIN_ALPHABETS = dict((id(v), k) for k, v in vars(charstatemodel).items() if isinstance(v, cls.StateAlphabet))
         cls.ready = True
         return cls
 
@@ -56,8 +59,11 @@ def category(obj):
     entered but is not itself a mutable part.  Otherwise the name of the mutable category."""
     if isinstance(obj, STOP_TYPES):
         return None
-    if isinstance(obj, L.EXEMPT):
-        return None
+    if isinstance(obj, L.StateIdentity):
+        return None     # documented immutable ("set upon definition/creation, and after that read-only")
+    if isinstance(obj, L.StateAlphabet):
+        # an atom (not entered: its states and look-up tables belong to it); mutable unless it is a library constant
+        return None if id(obj) in L.BUILTIN_ALPHABETS else "StateAlphabet"
     if isinstance(obj, tuple):
         return "~tuple"
     if isinstance(obj, frozenset):
@@ -77,6 +83,8 @@ def category(obj):
 
 
 def _children(obj, skip_node_attrs):
+    if isinstance(obj, L.StateAlphabet):
+        return
     if isinstance(obj, dict):
         for i, (k, v) in enumerate(obj.items()):
             yield "<key %d>" % i, k
@@ -152,7 +160,9 @@ class Namer(object):
 
     def __init__(self):
         self.names = {}
-        self.objs = {}
+        self.objs = {}          # structural objects (nodes, edges, trees, taxa, ...)
+        self.aux = {}           # auxiliary named objects (annotations, state alphabets): named, but not "members"
+        self.malformed = []     # what the raw walk found instead of a node ("<where>: <what>")
 
     def add(self, obj, name):
         self.names[id(obj)] = name
@@ -160,6 +170,16 @@ class Namer(object):
         if d is not None:
             self.names[("d", id(d))] = name
         self.objs[name] = obj
+
+    def add_aux(self, obj, name):
+        if id(obj) in self.names:
+            return
+        self.names[id(obj)] = name
+        self.aux[name] = obj
+
+    def lookup(self, name):
+        o = self.objs.get(name)
+        return o if o is not None else self.aux.get(name)
 
     def get(self, obj):
         n = self.names.get(id(obj))
@@ -231,7 +251,9 @@ def vsig(v, nm, stack=(), done=None):
         return ["s", sorted((vsig(x, nm, stack, {}) for x in v), key=json.dumps)]
     d = getattr(v, "__dict__", None)
     if d is not None:
-        return ["obj", type(v).__name__, [[k, vsig(d[k], nm, stack, done)] for k in sorted(d)]]
+        # the annotation set is created lazily by the first look at .annotations: an empty one is the same as none
+        return ["obj", type(v).__name__, [[k, vsig(d[k], nm, stack, done)] for k in sorted(d, key=repr) if k != "_annotations"],
+                annotations_sig(v, nm, stack, done)]
     return ["repr", repr(v)]
 
 
@@ -294,9 +316,24 @@ def iter_annotations(obj):
             stack.extend(s2._item_list)
 
 
-def raw_preorder(tree):
-    seed = tree.__dict__.get("_seed_node")
+def raw_children(nd):
+    """the raw child list of a node, () when the object has none (malformed structure)."""
+    d = getattr(nd, "__dict__", None)
+    ch = d.get("_child_nodes") if isinstance(d, dict) else None
+    return ch if isinstance(ch, (list, tuple)) else ()
+
+
+def raw_preorder(tree, bad=None):
+    """raw pre-order over ``_child_nodes``.  Tolerates malformed structures (a copy route may hand back anything):
+    objects without attribute dictionary are left out, nodes without child list count as leaves, a node reached twice
+    is listed once; each such defect is described in ``bad`` (when given)."""
+    d = getattr(tree, "__dict__", None)
+    seed = d.get("_seed_node") if isinstance(d, dict) else None
     out = []
+    if not isinstance(d, dict):
+        if bad is not None:
+            bad.append("tree-without-attributes")
+        return out
     if seed is None:
         return out
     stack = [seed]
@@ -304,11 +341,44 @@ def raw_preorder(tree):
     while stack:
         nd = stack.pop()
         if id(nd) in seen:
+            if bad is not None:
+                bad.append("node-reached-twice")
             continue
         seen.add(id(nd))
+        x = getattr(nd, "__dict__", None)
+        if not isinstance(x, dict):
+            if bad is not None:
+                bad.append("child-list-holds-a-non-node")
+            continue
+        if not isinstance(x.get("_child_nodes"), (list, tuple)):
+            if bad is not None:
+                bad.append("node-without-child-list")
         out.append(nd)
-        stack.extend(reversed(nd._child_nodes))
+        stack.extend(reversed(raw_children(nd)))
     return out
+
+
+def name_annotations(nm):
+    """canonical names for every Annotation hanging (transitively) on a named structural object:
+    '<owner>/ann:<i>[/ann:<j>...]', so that annotations bound to an attribute of their parent annotation
+    have a named owner too."""
+    for oname, o in list(nm.objs.items()):
+        d = getattr(o, "__dict__", None)
+        s = d.get("_annotations") if isinstance(d, dict) else None
+        if s is None:
+            continue
+        stack = [(oname, s)]
+        while stack:
+            base, aset = stack.pop()
+            items = aset.__dict__.get("_item_list") or ()
+            for i, a in enumerate(items):
+                nme = "%s/ann:%d" % (base, i)
+                if id(a) in nm.names:
+                    continue
+                nm.add_aux(a, nme)
+                s2 = a.__dict__.get("_annotations")
+                if s2 is not None:
+                    stack.append((nme, s2))
 
 
 def taxon_names(ns, nm, prefix="taxon"):
@@ -326,7 +396,7 @@ def name_tree(tree, nm, prefix="", with_ns=True):
     if with_ns and ns is not None and nm.get(ns) is None:
         nm.add(ns, "ns")
         taxon_names(ns, nm)
-    nodes = raw_preorder(tree)
+    nodes = raw_preorder(tree, nm.malformed)
     for i, nd in enumerate(nodes):
         nm.add(nd, "%snode:%d" % (prefix, i))
     for i, nd in enumerate(nodes):
@@ -359,32 +429,37 @@ def ns_sig(ns, nm, sig, pfx="ns-"):
                                     sorted([nm.get(t) or "?", m] for t, m in d.get("_taxon_bitmask_map", {}).items())]
 
 
-def tree_sig(tree, nm, nodes, sig=None, pfx="", ignore_node_attrs=()):
+def tree_sig(tree, nm, nodes, sig=None, pfx="", ignore_node_attrs=(), ignore_tree_attrs=()):
     """component -> JSON-able value.  ``nodes`` = raw pre-order (from name_tree)."""
     sig = {} if sig is None else sig
     d = tree.__dict__
     sig[pfx + "rooting"] = d.get("_is_rooted")
-    sig[pfx + "tree-meta"] = [vsig(d.get("_label"), nm), vsig(d.get("weight"), nm), vsig(d.get("length_type"), nm)]
+    sig[pfx + "tree-label"] = vsig(d.get("_label"), nm)
+    sig[pfx + "tree-weight"] = [vsig(d.get("weight"), nm), vsig(d.get("length_type"), nm)]
     st, nl, tx, txl, ln, el, ages, com, ann, ext, bip = [], [], [], [], [], [], [], [], [], [], []
+    typ = [type(tree).__qualname__]
     com.append(vsig(d.get("comments"), nm))
     ann.append(annotations_sig(tree, nm))
-    ext.append(extras_sig(tree, "Tree", nm))
+    ext.append(extras_sig(tree, "Tree", nm, ignore_tree_attrs))
     for nd in nodes:
         x = nd.__dict__
         e = x.get("_edge")
-        ex = e.__dict__ if e is not None else {}
+        ex = getattr(e, "__dict__", None)
+        if not isinstance(ex, dict):
+            ex = {}
         par = x.get("_parent_node")
-        st.append([len(x.get("_child_nodes", ())), _tname(par, nm), _tname(e, nm), _tname(ex.get("_head_node"), nm)])
+        st.append([len(raw_children(nd)), _tname(par, nm), _tname(e, nm), _tname(ex.get("_head_node"), nm)])
+        typ.append([type(nd).__qualname__, type(e).__qualname__])
         nl.append(vsig(x.get("_label"), nm))
         t = x.get("taxon")
         tx.append(_tname(t, nm))
-        txl.append(None if t is None else vsig(t.__dict__.get("_label"), nm))
+        txl.append(None if t is None else vsig(getattr(t, "__dict__", {}).get("_label"), nm))
         ln.append(vsig(ex.get("length"), nm))
         el.append([vsig(ex.get("_label"), nm), vsig(ex.get("rootedge"), nm)])
         ages.append(vsig(x.get("age"), nm))
         com.append([vsig(x.get("comments"), nm), vsig(ex.get("comments"), nm)])
-        ann.append([annotations_sig(nd, nm), annotations_sig(e, nm) if e is not None else []])
-        ext.append([extras_sig(nd, "Node", nm, ignore_node_attrs), extras_sig(e, "Edge", nm) if e is not None else []])
+        ann.append([annotations_sig(nd, nm), annotations_sig(e, nm) if ex else []])
+        ext.append([extras_sig(nd, "Node", nm, ignore_node_attrs), extras_sig(e, "Edge", nm) if ex else []])
         bip.append(bipsig(ex.get("_bipartition"), nm))
     enc = d.get("bipartition_encoding")
     if enc is not None:
@@ -396,6 +471,7 @@ def tree_sig(tree, nm, nodes, sig=None, pfx="", ignore_node_attrs=()):
     if bem is not None:
         bem = sorted([[bipsig(k, nm), _tname(v, nm)] for k, v in bem.items()], key=json.dumps)
     sig[pfx + "structure"] = st
+    sig[pfx + "types"] = typ
     sig[pfx + "node-labels"] = nl
     sig[pfx + "taxa"] = tx
     sig[pfx + "taxon-labels"] = txl
@@ -407,6 +483,45 @@ def tree_sig(tree, nm, nodes, sig=None, pfx="", ignore_node_attrs=()):
     sig[pfx + "extras"] = ext
     sig[pfx + "bipartitions"] = [bip, enc, sbem, bem]
     return sig
+
+
+def state_sig(st):
+    x = st.__dict__
+    members = x.get("_member_states")
+    return [x.get("_symbol"), x.get("_index"), x.get("_state_denomination"),
+            None if members is None else [getattr(ms, "__dict__", {}).get("_symbol") for ms in members],
+            sorted(x.get("_symbol_synonyms") or (), key=repr)]
+
+
+def alphabet_sig(a):
+    """id-free content of a user-made alphabet (raw fields); a library constant is rendered by its name."""
+    if id(a) in L.BUILTIN_ALPHABETS:
+        return ["builtin", L.BUILTIN_ALPHABETS[id(a)]]
+    x = a.__dict__
+    return [type(a).__qualname__, x.get("_label"), x.get("_is_case_sensitive"), x.get("_gap_symbol"), x.get("_no_data_symbol"),
+            [state_sig(st) for st in x.get("_fundamental_states") or ()],
+            [state_sig(st) for st in x.get("_ambiguous_states") or ()],
+            [state_sig(st) for st in x.get("_polymorphic_states") or ()]]
+
+
+def matrix_alphabets(m):
+    """every alphabet the matrix refers to, once each, in a canonical order: the state_alphabets list, the default
+    alphabet, the alphabets of the character types."""
+    d = m.__dict__
+    out, seen = [], set()
+    cands = list(d.get("state_alphabets") or ())
+    cands.append(d.get("_default_state_alphabet"))
+    for c in d.get("character_types") or ():
+        cands.append(getattr(c, "__dict__", {}).get("_state_alphabet"))
+    for a in cands:
+        if a is not None and isinstance(a, L.StateAlphabet) and id(a) not in seen:
+            seen.add(id(a))
+            out.append(a)
+    return out
+
+
+def custom_alphabets(m):
+    return [a for a in matrix_alphabets(m) if id(a) not in L.BUILTIN_ALPHABETS]
 
 
 def matrix_sig(m, nm, sig=None):
@@ -434,9 +549,12 @@ def matrix_sig(m, nm, sig=None):
     sig["cell-annotations"] = cann
     sig["sequence-annotations"] = sann
     sig["sequence-extras"] = sext
-    sig["character-types"] = [[vsig(c.__dict__.get("_label"), nm), id(c.__dict__.get("_state_alphabet")),
+    sig["character-types"] = [[vsig(c.__dict__.get("_label"), nm), _tname(c.__dict__.get("_state_alphabet"), nm),
                                annotations_sig(c, nm), vsig(c.__dict__.get("comments"), nm)]
                               for c in d.get("character_types", [])]
+    sig["alphabets"] = [[[nm.get(a), alphabet_sig(a)] for a in matrix_alphabets(m)],
+                        [_tname(a, nm) for a in d.get("state_alphabets", [])] if "state_alphabets" in d else None,
+                        _tname(d.get("_default_state_alphabet"), nm)]
     subs = d.get("character_subsets")
     out = []
     if subs is not None:
@@ -453,11 +571,12 @@ def matrix_sig(m, nm, sig=None):
 class View(object):
     """one side (source or copy): canonical names + signature, re-takable at any time."""
 
-    def __init__(self, kind, root, with_ns=True, ignore_node_attrs=()):
+    def __init__(self, kind, root, with_ns=True, ignore_node_attrs=(), ignore_tree_attrs=()):
         self.kind = kind
         self.root = root
         self.with_ns = with_ns
         self.ignore_node_attrs = tuple(ignore_node_attrs)
+        self.ignore_tree_attrs = tuple(ignore_tree_attrs)
         self.take()
 
     def take(self):
@@ -472,7 +591,8 @@ class View(object):
             nodes = name_tree(root, nm, "", self.with_ns)
             self.trees = [root]
             self.nodes = [nodes]
-            tree_sig(root, nm, nodes, sig, "", self.ignore_node_attrs)
+            name_annotations(nm)
+            tree_sig(root, nm, nodes, sig, "", self.ignore_node_attrs, self.ignore_tree_attrs)
             self.ns = root.__dict__.get("_taxon_namespace")
         elif kind == "treelist":
             nm.add(root, "treelist")
@@ -485,7 +605,9 @@ class View(object):
             per = []
             for j, t in enumerate(trees):
                 per.append(name_tree(t, nm, "t%d/" % j, False))
-            sig["list-meta"] = [vsig(d.get("_label"), nm), vsig(d.get("tree_type"), nm), len(trees)]
+            name_annotations(nm)
+            sig["list-meta"] = [vsig(d.get("_label"), nm), len(trees)]
+            sig["list-tree-type"] = [type(root).__qualname__, vsig(d.get("tree_type"), nm)]
             sig["list-comments"] = vsig(d.get("comments"), nm)
             sig["list-annotations"] = annotations_sig(root, nm)
             sig["list-extras"] = extras_sig(root, "TreeList", nm)
@@ -505,11 +627,16 @@ class View(object):
                 nm.add(c, "ctype:%d" % i)
             for i, s in enumerate(root.__dict__.get("_taxon_sequence_map", {}).values()):
                 nm.add(s, "seq:%d" % i)
+            for i, a in enumerate(matrix_alphabets(root)):
+                nm.add_aux(a, "builtin-alphabet:%s" % L.BUILTIN_ALPHABETS[id(a)] if id(a) in L.BUILTIN_ALPHABETS
+                           else "alphabet:%d" % i)
+            name_annotations(nm)
             matrix_sig(root, nm, sig)
         elif kind == "ns":
             self.ns = root
             nm.add(root, "ns")
             taxon_names(root, nm)
+            name_annotations(nm)
         else:
             raise ValueError(kind)
         if self.ns is not None and self.with_ns:
@@ -692,6 +819,30 @@ def decorate_tree(rng, tree, level, encode=None, extras=True):
             annotate(rng, nd.edge, bindable=("length", "label"), others=[(nd, "label")], depth=level - 1)
 
 
+BOUNDARY_LABELS = ("", "0", 0, "None", " ")
+
+
+def decorate_boundary(rng, tree, p=0.25):
+    """falsy / unusual values of every copied scalar attribute (a truthiness test in a copy route loses them):
+    labels "" / "0" / 0, weight 0 / 0.0, length 0.0 / 0, age 0.0."""
+    nodes = raw_preorder(tree)
+    if rng.random() < p:
+        tree.label = rng.choice(BOUNDARY_LABELS)
+    if rng.random() < p:
+        tree.weight = rng.choice([0, 0.0])
+    if rng.random() < p:
+        tree.length_type = rng.choice(["", 0])
+    for nd in nodes:
+        if rng.random() < p:
+            nd.label = rng.choice(BOUNDARY_LABELS)
+        if rng.random() < p:
+            nd.edge.label = rng.choice(BOUNDARY_LABELS)
+        if rng.random() < p:
+            nd.edge.length = rng.choice([0.0, 0, -0.0])
+        if rng.random() < p:
+            nd.age = rng.choice([0.0, 0])
+
+
 def symbols_of(alphabet):
     out = []
     for s in alphabet.state_iter():
@@ -797,10 +948,12 @@ class Journal(object):
     """mutation classes; each returns True when it changed something on ``view``'s side.
     ``deep`` = namespace and taxa belong to this side alone (deep routes)."""
 
-    def __init__(self, rng, deep, shallow=False):
+    def __init__(self, rng, deep, shallow=False, prefix="", skip=()):
         self.rng = rng
         self.deep = deep
         self.shallow = shallow
+        self.prefix = prefix        # two journals over one object must not invent the same fresh labels
+        self.skip = tuple(skip)
         self.k = 0
 
     def classes(self, kind):
@@ -820,7 +973,7 @@ class Journal(object):
             out = common + ["matrix-new-sequence", "matrix-remove-sequence", "subset-new"]
             if not self.shallow:
                 out += ["cell-set", "cell-append", "cell-delete", "cell-annotation-add", "ctype-label", "subset-edit",
-                        "extra-inplace"]
+                        "extra-inplace", "alphabet-add-state"]
         elif kind == "ns":
             out = ["annotation-add", "annotation-change", "annotation-drop", "comment-append", "top-label",
                    "ns-add-taxon", "ns-remove-taxon", "ns-reorder"]
@@ -829,11 +982,11 @@ class Journal(object):
             return out
         if self.deep:
             out = out + deep
-        return out
+        return [c for c in out if c not in self.skip]
 
     def fresh(self, tag):
         self.k += 1
-        return "%s-%d" % (tag, self.k)
+        return "%s-%s%d" % (tag, self.prefix, self.k)
 
     def apply(self, mclass, view):
         rng = self.rng
@@ -990,7 +1143,9 @@ class Journal(object):
                 return True
             if mclass == "bipartition-edit":
                 c = [n.edge for n in nodes if n.edge is not None and n.edge._bipartition is not None]
-                if not c:
+                if not c or tree.__dict__.get("_bipartition_edge_map"):
+                    # a bipartition that is a key of the (filled) edge map must stay immutable: making it mutable there
+                    # is a misuse of the API, not a later change of one side
                     return False
                 b = rng.choice(c)._bipartition
                 b.is_mutable = True
@@ -1112,6 +1267,24 @@ class Journal(object):
                 cs = root.character_subsets[rng.choice(list(root.character_subsets.keys()))]
                 cs.character_indices.add(1000 + self.k)
                 cs.label = self.fresh("cs")
+                return True
+            if mclass == "alphabet-add-state":
+                # only alphabets the user made: the module-level alphabets are library constants and are never touched
+                c = custom_alphabets(root)
+                if not c:
+                    return False
+                a = rng.choice(c)
+                used = set()
+                for st in list(a.__dict__.get("_fundamental_states") or ()) + list(a.__dict__.get("_ambiguous_states") or ()) \
+                        + list(a.__dict__.get("_polymorphic_states") or ()):
+                    sym = st.__dict__.get("_symbol")
+                    if isinstance(sym, str):
+                        used.add(sym.lower())
+                        used.update(x.lower() for x in st.__dict__.get("_symbol_synonyms") or () if isinstance(x, str))
+                free = [ch for ch in "zyxwvutsrqponmlkjihgfed" if ch not in used]
+                if not free:
+                    return False
+                a.new_fundamental_state(free[0])
                 return True
             if mclass == "extra-inplace":
                 c = [s for s in seqs if "xnote" in s.__dict__]
